@@ -141,8 +141,10 @@ func exec(p prog, c *hx.Case) error {
 			}
 			completedIDs = append(completedIDs, id)
 			// the publication goroutine has started its write (or is held at it)
+			// (publications are serialized: behind a held write the next one queues up
+			// without starting its own write)
 			deadline := time.Now().Add(5 * time.Second)
-			for loc.StartedCount("write") == before && time.Now().Before(deadline) {
+			for loc.StartedCount("write") == before && loc.Blocked("write") == 0 && loc.Blocked("remove") == 0 && time.Now().Before(deadline) {
 				time.Sleep(10 * time.Microsecond)
 			}
 		case "holdw":
